@@ -108,7 +108,7 @@ func (g *tplGen) expr() string {
 func (g *tplGen) rangeHdr() string {
 	r := g.r
 	if r.p(8) {
-		return r.pick([]string{"i, x : nope", "i, x : a", "i,x:xs[1:]", "x : ferr()", "i, x : n"})
+		return r.pick([]string{"i, x : nope", "i, x : a", "i,x:xs[1:]", "x : ferr()", "i, x : n", "i, x : ${xs}", "x : xs)", "x : xs,", "x : xs xs", "x : (xs"})
 	}
 	return r.pick([]string{"i, x : xs", "x : xs", "xs", ", x : xs", "_, x : xs", "i, x : e", "i, x : m1", "i, x : s2", "i, x : nest", "i, x : strs", "i, x : ints", "i, x : arr", "i, x : (xs)"})
 }
@@ -350,7 +350,8 @@ func (g *tplGen) file(main bool) string {
 			sb.WriteString(r.pick(texts))
 		}
 		if r.p(5) {
-			sb.WriteString(r.pick([]string{"<!-- c -->", "<!--/* h */-->", "</p>", "<![CDATA[x>y]]>", "<!DOCTYPE html>"}))
+			sb.WriteString(r.pick([]string{"<!-- c -->", "<!--/* h */-->", "</p>", "<![CDATA[x>y]]>", "<!DOCTYPE html>",
+				"<!--\u3000/* h */\u3000-->", "<!--\u00a0/* h */-->", "<!--\v/* h */\v-->", "<!-- /* half -->", "<!-- half */ -->"}))
 		}
 	}
 	return sb.String()
